@@ -286,7 +286,9 @@ func (b *expandBody) JustAttributes() (hcl.Attributes, hcl.Diagnostics) {
 		}
 		attrs = visible
 	}
-	return attrs, diags
+	// The attribute expressions must be evaluated with the iterators of
+	// any enclosing dynamic blocks in scope, as for Content/PartialContent.
+	return b.prepareAttributes(attrs), diags
 }
 
 func (b *expandBody) MissingItemRange() hcl.Range {
